@@ -64,7 +64,7 @@ def anchored_modules(prog, prop):
 def _literal(node):
     for n in ast.walk(node):
         c = const_value(n)
-        if isinstance(c, float) and c != 0 and abs(c) < 1e-3:
+        if isinstance(c, float) and c != 0 and abs(c) <= 1e-2:
             return repr(c)
     return None
 
